@@ -42,6 +42,10 @@ template <typename Threading_>
 struct PolFunction { using Threading = Threading_; };
 template <typename Threading_>
 struct PolComparable { using Threading = Threading_; using Callback = Fn; };
+// Map policy variants for the configuration product (C20)
+template <typename K, typename V> struct UserMapT : std::map<K, V> {};
+template <typename Threading_> struct PolOrderedMap { using Threading = Threading_; template <typename K, typename V> using Map = std::map<K, V>; };
+template <typename Threading_> struct PolUserMap { using Threading = Threading_; template <typename K, typename V> using Map = UserMapT<K, V>; };
 
 struct Cfg {
 	int K = 3;            // cap on live callbacks
@@ -550,6 +554,29 @@ static struct Register {
 		for(int p = 0; p <= 6; ++p) {
 			Cfg c; c.K = 3; c.nested = true; c.counterPreset = p;
 			addUnit<ListTarget<PolFunction<ST> > >(fmt("C19/list/single/preset%d", p), 0, c, std::min(p + 4, 9), 11, 1, 2);
+		}
+#endif
+#if SEL(20, 0)
+		{ Cfg c; c.K = 3;
+			addUnit<ListTarget<PolFunction<ST> > >("C20/list-flat-function/single", 0, c, 5, 6, 0, 0);
+			addUnit<ListTarget<PolFunction<VThreading> > >("C20/list-flat-function/vthreading", 0, c, 5, 6, 0, 0);
+			addUnit<ListTarget<PolFunction<SpinT> > >("C20/list-flat-function/spinlock", 0, c, 5, 6, 0, 0);
+			addUnit<ListTarget<PolFunction<MT> > >("C20/list-flat-function/stdmutex", 0, c, 5, 6, 0, 0);
+			Cfg cc = c; cc.comparable = true;
+			addUnit<ListTarget<PolComparable<ST> > >("C20/list-flat-comparable/single", 0, cc, 4, 5, 0, 0);
+			addUnit<ListTarget<PolComparable<MT> > >("C20/list-flat-comparable/stdmutex", 0, cc, 4, 5, 0, 0);
+			Cfg cn = c; cn.nested = true;
+			addUnit<ListTarget<PolFunction<ST> > >("C20/list-nested-function/single", 0, cn, 3, 4, 1, 1);
+			addUnit<ListTarget<PolFunction<MT> > >("C20/list-nested-function/stdmutex", 0, cn, 3, 4, 1, 1);
+			addUnit<ListTarget<PolFunction<SpinT> > >("C20/list-nested-function/spinlock", 0, cn, 3, 4, 1, 1);
+		}
+#endif
+#if SEL(20, 1)
+		{ Cfg cd; cd.K = 3; cd.nLists = 2;
+			addUnit<DispTarget<PolFunction<ST> > >("C20/dispatcher-flat/single-unordered_map", 0, cd, 4, 5, 0, 0);
+			addUnit<DispTarget<PolOrderedMap<MT> > >("C20/dispatcher-flat/stdmutex-map", 0, cd, 4, 5, 0, 0);
+			addUnit<DispTarget<PolUserMap<SpinT> > >("C20/dispatcher-flat/spinlock-usermap", 0, cd, 4, 5, 0, 0);
+			addUnit<DispTarget<PolOrderedMap<VThreading> > >("C20/dispatcher-flat/vthreading-map", 0, cd, 4, 5, 0, 0);
 		}
 #endif
 #if SEL(19, 1)
